@@ -49,6 +49,7 @@ func (s *State) clone() *State {
 
 // Region is a set of cells [Lo,Hi) of object Obj (all cells when Whole), restricted to heap sorts Sorts (nil = all).
 type Region struct {
+	Cells  int64  // > 0: the region is exactly the Cells cells of one value of type T starting at (Obj, Lo)
 	Owner  string // with TypeID: only the objects whose ghost owner is this object id ("owned(m, T)")
 	Map    bool   // the object is a map: only the map heaps are concerned
 	TypeID string // if set: all cells of all objects whose dynamic type has this id ("alltyped(T)")
@@ -110,6 +111,10 @@ type Gen struct {
 	extraTrusted map[string]bool
 	UsedSpecs map[string]bool
 	frozen   bool
+	nret     int
+	isC      bool
+	cPos     string
+	cLoopStack []*Loop
 	nameAddrs map[string]ssa.Value
 	rangeAssumed map[string]bool
 	shapeErrors []string
@@ -176,6 +181,9 @@ func (g *Gen) posOf(p token.Pos) string {
 
 // oblige records an obligation cond under the current path condition and then assumes it.
 func (g *Gen) oblige(kind, label string, pos token.Pos, cond string) *Obl {
+	if g.isC {
+		return g.obligeAt(kind, label, g.cPos, g.curPC, cond)
+	}
 	return g.obligeAt(kind, label, g.posOf(pos), g.curPC, cond)
 }
 
@@ -413,6 +421,16 @@ func (g *Gen) havocRegion(st *State, r Region) {
 		}
 		return
 	}
+	if r.Cells > 0 && r.Cells <= 8 && r.T != nil && !r.Whole && r.TypeID == "" && r.Sorts == nil {
+		// a small value: one fresh constant per cell (no quantified definition needed)
+		for _, cr := range g.L.Ranges(r.T) {
+			for k := int64(0); k < cr.Count; k++ {
+				fr := g.freshConst("hvc", cr.Sort)
+				g.storeCell(st, g.mkptr(r.Obj, g.M.ixAdd(r.Lo, g.M.IxLit(cr.Off+k))), cr.Sort, fr)
+			}
+		}
+		return
+	}
 	sorts := r.Sorts
 	if sorts == nil {
 		if r.T != nil && !r.Whole {
@@ -424,7 +442,12 @@ func (g *Gen) havocRegion(st *State, r Region) {
 				}
 			}
 		} else {
-			sorts = g.allHeapSorts()
+			// a whole object: its real cells; ghost state attached to an object is named separately (ghost(x))
+			for _, hs := range g.allHeapSorts() {
+				if hs != "GInt" && hs != "GOwn" {
+					sorts = append(sorts, hs)
+				}
+			}
 		}
 	}
 	for _, s := range sorts {
@@ -540,8 +563,10 @@ func (g *Gen) regionSub(a, b Region) string {
 // ---------- allocation ----------
 
 func (g *Gen) newObject(st *State) string {
+	// a fresh identifier above the current watermark. (Not "watermark+1": allocation sites on different
+	// paths would then share an identifier, and the facts recorded about them would contradict each other.)
 	o := g.freshConst("obj", "Int")
-	g.assume(sEq(o, app("+", st.Alloc, "1")))
+	g.assume(app(">", o, st.Alloc))
 	st.Alloc = o
 	return o
 }
